@@ -186,7 +186,8 @@ class FakeSock(FakeBase):
         self.kbuf += data[:room]
         self.sent_total += room
         self.send_log.append((self.world.thread_name(), len(data), room))
-        self.world.progress += 1
+        if room > 0:
+            self.world.progress += 1
         # the syscall has copied the bytes; the thread may be pre-empted before it returns
         self.world.yield_point("sock.send.ret", self)
         return room
@@ -453,6 +454,7 @@ class World:
         self.select_calls = 0
         self.last_select = None
         self.would_block = False
+        self.spin = False
         self.sndbuf = sndbuf
         self.handle_errors = []
         self.map = {}
@@ -571,9 +573,12 @@ class World:
         return ran
 
     def run(self, max_turns=400):
-        """run to quiescence (no progress in a turn and nothing ready)"""
+        """run to quiescence (no progress in a turn and nothing ready).  A *spin* - the loop keeps
+        finding the socket ready but 60 consecutive turns move no byte and run no task - is reported
+        through self.spin (it is how undeliverable output looks in a busy loop), not as an error."""
         turns = 0
         idle = 0
+        stuck = 0
         while turns < max_turns:
             before = (self.progress, len(self.calllog))
             ran = self.turn()
@@ -584,6 +589,13 @@ class World:
                     return turns
             else:
                 idle = 0
+            if self.progress == before[0] and not ran:
+                stuck += 1
+                if stuck >= 60:
+                    self.spin = True
+                    return turns
+            else:
+                stuck = 0
         raise HarnessError("single-thread world did not reach quiescence in %d turns" % max_turns)
 
     def close(self):
